@@ -21,12 +21,17 @@ func init() {
 // instruction order, provided those blocks form a straight line.
 func callsInOrder(fn *ssa.Function) ([]ssa.CallInstruction, bool) {
 	var out []ssa.CallInstruction
+	var deferred []ssa.CallInstruction
 	straight := true
 	b := fn.Blocks[0]
 	seen := map[*ssa.BasicBlock]bool{}
 	for b != nil && !seen[b] {
 		seen[b] = true
 		for _, ins := range b.Instrs {
+			if d, ok := ins.(*ssa.Defer); ok {
+				deferred = append(deferred, d)
+				continue
+			}
 			if ci, ok := ins.(ssa.CallInstruction); ok {
 				out = append(out, ci)
 			}
@@ -40,6 +45,10 @@ func callsInOrder(fn *ssa.Function) ([]ssa.CallInstruction, bool) {
 			straight = false
 			b = nil
 		}
+	}
+	// deferred calls run when the function returns, last pushed first
+	for i := len(deferred) - 1; i >= 0; i-- {
+		out = append(out, deferred[i])
 	}
 	return out, straight
 }
@@ -135,7 +144,7 @@ func ruleC16a(c *Ctx) []*report.Result {
 		pos := c.P.Pos(fn.Pos())
 		calls, straight := callsInOrder(fn)
 		if !straight {
-			r.Fail(construct+" / single path", pos, "entry point is expected to be straight-line code", nil, "")
+			r.Undecide(construct + " is not straight-line code: the protocol rule does not apply to this shape")
 			continue
 		}
 		var seq []string
